@@ -36,3 +36,25 @@ Fixpoint sassoc {A} (k : string) (l : list (string * A)) : option A :=
   end.
 
 Definition smem (k : string) (l : list string) : bool := existsb (String.eqb k) l.
+
+(* The statements of the `while` body of Simulator.run, as data (tools/serial_gen.py); the flag
+   paired with each statement in Gen/Serial.run_loop_prog says whether it stands inside the
+   `if <recompute condition>:` block.
+     RS_pop            current_events = self.event_queue.get_current_events(self._iteration)
+     RS_process        for e in current_events: self.event_history.append(e); self._process_event(e)
+     RS_test_due       evaluation of the recompute condition (Gen/ResumeZ_Z.Run_recompute)
+     RS_call           new_schedule = self.scheduler.run()          (may raise)
+     RS_set_last_iter  self._last_schedule_update = self._iteration
+     RS_set_resolve b  self._resolve = b
+     RS_rest text      any other statement; it must not write _iteration/_resolve/_last_schedule_update,
+                       the queue, event_history or call the scheduler (checked by the generator)
+     RS_inc_iter       self._iteration = self._iteration + 1                                        *)
+Inductive run_stmt : Type :=
+| RS_pop
+| RS_process
+| RS_test_due
+| RS_call
+| RS_set_last_iter
+| RS_set_resolve (b : bool)
+| RS_rest (text : string)
+| RS_inc_iter.
